@@ -97,6 +97,7 @@ class C18(Check):
             added = []  # successful additions: dicts(name, op, kind, tol, items)
             stats = {"adds": 0, "overlap": False, "deepest": None, "reopens": 0}
             last = "create"
+            pending = []  # logs collected for one add_data call
             for op in program["ops"]:
                 kind = op["op"]
                 if kind in ("set_collar", "set_surveys"):
@@ -144,10 +145,19 @@ class C18(Check):
                     if path_ok:
                         self._check_queries(hole, path, queries[: 12], tclass, "requery-after-reopen", res)
                 else:
-                    done = self._add(hole, op, added, stats, allow, res)
+                    if op.get("batch_with_next") or pending:
+                        pending.append(op)
+                        if op.get("batch_with_next"):
+                            continue
+                        batch, pending = pending, []
+                        done = self._add_batch(hole, batch, added, stats, res)
+                    else:
+                        done = self._add(hole, op, added, stats, allow, res)
                     if done:
                         last = kind
                         self._check_state(hole, path, added, last, res)
+            if pending and self._add_batch(hole, pending, added, stats, res):
+                self._check_state(hole, path, added, "add_batch", res)
             res.nontrivial = (not res.fails and path.distinct_directions() >= 2 and stats["adds"] >= 2
                               and stats["overlap"])
             res.info = {"rows": len(table), "adds": stats["adds"], "reopens": stats["reopens"],
@@ -349,6 +359,55 @@ class C18(Check):
                       "expected": expected})
         kinds = {a["op"] for a in added}
         if len(kinds) == 2:
+            res.label("mixed-depth-and-interval")
+        return True
+
+    def _add_batch(self, hole, ops, added, stats, res) -> bool:
+        """Several logs in ONE add_data call (dictionary of data sets): each is matched against the depths / intervals
+        the earlier ones of the same call created, exactly as if they had been added one call after the other."""
+        tol = ops[0]["tol"]
+        tol_eff = DEFAULT_TOL if tol is None else float(tol)
+        specs, records = {}, []
+        for op in ops:
+            items = [list(it) for it in op["items"]]
+            values, expected = self._values_for(op["kind"], items)
+            spec = {"values": values}
+            if op["kind"] == "int":
+                spec["type"] = "integer"
+            elif op["kind"] == "text":
+                spec["type"] = "text"
+            if op["op"] == "add_depth":
+                spec["depth"] = np.asarray([it[0] for it in items], dtype=float)
+            else:
+                spec["from-to"] = np.asarray([[it[0], it[1]] for it in items], dtype=float)
+            specs[op["name"]] = spec
+            records.append({"name": op["name"], "op": op["op"], "kind": op["kind"], "tol": tol_eff, "items": items,
+                            "expected": expected})
+        res.label(f"op:batch-of-{len(ops)}", "batch:" + "+".join(sorted({op["op"] for op in ops})))
+        unsorted_first = any(op["op"] == "add_depth" and [it[0] for it in op["items"]] != sorted(it[0] for it in op["items"])
+                             for op in ops[:-1])
+        if unsorted_first:
+            res.label("batch:earlier-log-unsorted")
+        kwargs = {} if tol is None else {"collocation_distance": float(tol)}
+        try:
+            hole.add_data(specs, **kwargs)
+        except Exception as exc:
+            kinds = "+".join(op["kind"] for op in ops)
+            res.fail(f"C18/add-raises/batch/{kinds}/{type(exc).__name__}",
+                     f"add_data of {[(op['name'], op['op'], op['items']) for op in ops]}, tol={tol} raised {exc!r}")
+            res.count("add_errors")
+            return True
+        for rec in records:
+            stats["adds"] += 1
+            res.count("additions")
+            reach_top = min(it[0] for it in rec["items"])
+            reach_bottom = max(it[-2] for it in rec["items"])
+            if stats["deepest"] is not None and reach_top < stats["deepest"]:
+                stats["overlap"] = True
+                res.label("later-addition-above-earlier")
+            stats["deepest"] = reach_bottom if stats["deepest"] is None else max(stats["deepest"], reach_bottom)
+            added.append(rec)
+        if len({a["op"] for a in added}) == 2:
             res.label("mixed-depth-and-interval")
         return True
 
